@@ -39,7 +39,22 @@ def c07(ctx, spec):
     un = sorted(k for k in ctx.counters if k.startswith('unavailable:'))
     ctx.extra['operator_availability'] = {'unavailable (does not compile, skipped)': un[:80], 'n_available_pairs': len([k for k in ctx.counters if k.startswith('avail:')])}
 
+# ---------------------------------------------------------------------------------------------- C05
+def c05(ctx, spec):
+    builds = [dict(name='c05_d%d' % d, src='harness/c05_assign.cpp', cfg='asan', defs=['C05_D=%d' % d]) for d in (1, 2, 3, 4)]
+    builds += [dict(name='c05s_d%d' % d, src='harness/c05_assign.cpp', cfg='asan', defs=['C05_D=%d' % d, 'C05_STR']) for d in (1, 2, 3)]
+    ctx.build(builds)
+    n = T(ctx, 6000, 250000)
+    for d in (1, 2, 3, 4): ctx.run_sharded('c05_d%d' % d, n, args=['--maxext', 5 if d < 4 else 4, '--maxops', 5], shards=3)
+    for d in (1, 2, 3): ctx.run_sharded('c05s_d%d' % d, n // 2, args=['--maxext', 4, '--maxops', 4], shards=2)
+
 REGISTRY = {
+    'C05': dict(fn=c05, level='exploration',
+                rule='destination = mutable view reached by a random view program (as C01) over a guarded root filled with unique ids; source of equal extents from 8 layout kinds (array, transposed/unrotated/rotated/reversed storage, padded block, strided-of-doubled, subarray()) with unique ids; '
+                     '13 overload kinds (lvalue/rvalue destination = const/mutable/rvalue source, other element type, elements()=elements(), fill, swap of two views, initializer lists, vector ranges, element_moved(), move()); int and std::string elements; '
+                     'after the operation the whole root image is compared: model elements hold the source value of the same logical index, every other root element and the guards are unchanged, sources unchanged (copies) or moved-from exactly on the viewed set (moves), root not rebound. '
+                     'distinct = hash(root shape class, view program, overload kind, source kind); non-trivial = destination has >= 2 elements',
+                assumptions=['destinations whose type became read-only along the program (reversed, chunked, ...) cannot be assigned and are skipped (counted)', 'self-overlapping destinations (broadcast-like) are skipped']),
     'C07': dict(fn=c07, level='exploration',
                 rule='pairs (and triples) of operands with values in {0,1}, D 0..4, extents 1..3 (zero sometimes), b derived from a (same / one flip / permuted extents with the same flat sequence / one extent +-1 keeping common tuples / other factorisation / unrelated); '
                      '9 operand kinds (array, const array, padded block view, transposed view, strided view, array_ref, array<long>, unrotated view, subarray()) x 9, plus two differently laid out views of the SAME storage; every relational operator that compiles (detection idiom; availability table in evidence) '
